@@ -5,7 +5,7 @@ package main
 //   lex H=<codes> R=<codes>
 //       fresh lexer; the runes of H are fed (stopping at the first error), then Lexer.Reset;
 //       then the runes of R one by one. Answer: the short state after every rune of R
-//       (state.prevrune.preBuiltinRune.priori.linenum.#tokens;buffer), `!<errkind>` in front of
+//       (state.prevrune.preBuiltinRune.priori.linenum.#tokens.escDigits.escValue.escByte;buffer), `!<errkind>` in front of
 //       the state at which a rune was refused (feeding stops there), and finally the complete
 //       state (ring, token queue, prevToken, prevPrevToken, stream counts).
 //   parse p H=<hist> C=<chunks>
